@@ -31,7 +31,7 @@ func enableThroughput(
 		id:            id,
 	}
 	eventloop.Register(el, func(commitEvent clientpb.ExecuteEvent) {
-		t.recordCommit(len(commitEvent.Batch.Commands))
+		t.recordCommit(len(commitEvent.Batch.GetCommands())) // the batch of a committed block can be absent
 	})
 	eventloop.Register(el, func(tickEvent types.TickEvent) {
 		t.tick(tickEvent)
